@@ -104,7 +104,7 @@ class Outcome:
             total_viol += 1
         # known findings that showed up in this run
         for f in findings:
-            q = f.get("quirk")
+            q = f.get("quirk") or f.get("id")
             if v.known_hits.get(q):
                 lines.append("KNOWN-FINDING: property=%s %s" % (prop, f.get("what", q)))
         obligations = max(1, len(self.spec.get("theorems_expected", [])) or len(self.theorems))
